@@ -254,6 +254,9 @@ func handlePayload(h *Handler, errResp errorResponder, p dataPayload, e xmlstrea
 
 	// If a call to conn.Read was pending, signal it that it's okay to resume
 	// because there's data now.
+	if conn.readClosed {
+		return nil
+	}
 	select {
 	case conn.readReady <- struct{}{}:
 	default:
